@@ -543,11 +543,13 @@ def _within_rounding_of_reference(built: Any, args: List[Any], op: Dict[str, Any
     where ref64 is the eager computation of the same callable on float64 copies of the inputs."""
     import torch
 
-    if built.module is not None:
-        return False
     a64 = [t.double() if t.is_floating_point() else t for t in args]
     try:
-        ref = _call(built.fn, None, _prep(a64, op["mask"], op["mode"]), op["mode"], op["tseed"] % 1000)
+        if built.module is not None:
+            ref_mod = copy.deepcopy(built.module).double()  # same parameters, float64 arithmetic
+            ref = _call(ref_mod, ref_mod, _prep(a64, op["mask"], op["mode"]), op["mode"], op["tseed"] % 1000)
+        else:
+            ref = _call(built.fn, None, _prep(a64, op["mask"], op["mode"]), op["mode"], op["tseed"] % 1000)
     except Exception:
         return False
     def errs(side: Dict[str, Any]) -> List[Tuple[float, float]]:
@@ -562,7 +564,7 @@ def _within_rounding_of_reference(built: Any, args: List[Any], op: Dict[str, Any
     ec, ee = errs(got), errs(want)
     if len(ec) != len(ee):
         return False
-    unit = TOL.get("torch." + op["dtype"], 2.0 ** -6)
+    unit = TOL.get(str(want["outs"][0].dtype), 2.0 ** -6)
     gmax = max([s_ for _, s_ in ee] + [1e-30])
     return all(c <= 4.0 * e + unit * max(s_, 1e-3 * gmax) for (c, s_), (e, _) in zip(ec, ee))
 
@@ -740,7 +742,8 @@ def execute(plan: Dict[str, Any]) -> Dict[str, Any]:
                         d = _cmp(x, y, f"grad[{j}]", tol_scale, gscale)
                         if d:
                             break
-                if d and op["dtype"] in ("bfloat16", "float16") and ": dtype " not in d and ": shape " not in d:
+                low_precision = any(t_.dtype in (torch.bfloat16, torch.float16) for t_ in want["outs"])
+                if d and low_precision and ": dtype " not in d and ": shape " not in d:
                     # "agree to float rounding": a compiled graph keeps fused intermediates in
                     # float32 where eager rounds each one to the low-precision dtype; both are then
                     # judged against the same computation in float64
